@@ -392,13 +392,16 @@ fn format_lambda(args: &[LambdaArg], body: &SpannedExpr, max_cols: usize, indent
         }
     };
 
-    // Try single-line first for other body types
-    let single_line_body = wrap(format_expr_impl(body, max_cols, indent));
-    let single_line = format!("{} {}", args_part, single_line_body);
+    // Try single-line first for other body types. The decision is taken on the single-line
+    // rendering, so that the body is laid out only once per nesting level (formatting it
+    // twice made nested lambdas exponentially slow).
+    if !contains_comments(body) {
+        let single_line = format!("{} {}", args_part, wrap(format_single_line(body)));
 
-    // Check only if it's actually single-line and fits
-    if !single_line.contains('\n') && indent + single_line.len() <= max_cols {
-        return single_line;
+        // Check only if it's actually single-line and fits
+        if !single_line.contains('\n') && indent + single_line.len() <= max_cols {
+            return single_line;
+        }
     }
 
     // Otherwise, put body on next line with increased indentation
@@ -428,14 +431,25 @@ fn format_conditional_multiline(
             formatted
         }
     };
-    let cond_str = wrap_open(condition, format_expr_impl(condition, max_cols, indent));
-
-    // Try to fit "if <condition> then" on one line
-    let if_then_prefix = format!("if {} then", cond_str);
+    // Try to fit "if <condition> then" on one line. Decided on the single-line rendering so
+    // that the condition is laid out only once per nesting level.
+    let if_then_prefix = if contains_comments(condition) {
+        None
+    } else {
+        let prefix = format!(
+            "if {} then",
+            wrap_open(condition, format_single_line(condition))
+        );
+        if !prefix.contains('\n') && indent + prefix.len() <= max_cols {
+            Some(prefix)
+        } else {
+            None
+        }
+    };
 
     let inner_indent = indent + INDENT_SIZE;
 
-    if indent + if_then_prefix.len() <= max_cols {
+    if let Some(if_then_prefix) = if_then_prefix {
         // Put then/else clauses on new lines
         // Check if else_expr is another conditional (else-if chain)
         if let Expr::Conditional {
@@ -601,20 +615,15 @@ fn format_binary_op_multiline(
             }
         }
 
-        // If it doesn't fit, break before the operator (keep operator with right operand)
+        // If it doesn't fit, break before the operator (keep operator with right operand).
+        // The right side is laid out at the same indentation as above, so it is reused.
         let continued_indent = indent;
-        let right_formatted = format_expr_impl(right, max_cols, continued_indent);
-        let right_formatted = if right_needs_parens {
-            format!("({})", right_formatted)
-        } else {
-            right_formatted
-        };
         return format!(
             "{}\n{}{} {}",
             left_str,
             make_indent(continued_indent),
             op_str,
-            right_formatted
+            right_str
         );
     }
 
